@@ -180,7 +180,7 @@ Expect(inp) ==
    generalized_rush_larsen |-> DenGRL(mi, inp, DeltaV, mi.sN),
    hybrid_x |-> DenGRL(mi, inp, DeltaV, {"x"})]
 InputJson(inp) == [t |-> inp.t, dt |-> inp.dt, states |-> inp.states, params |-> inp.params]
-Emit == (Done /\ EmitMod > 0 /\ Hash % EmitMod = 0) =>
+Emit == (Done /\ EmitMod > 0 /\ (Hash2 + LayoutOffset) % EmitMod = 0) =>
    PrintT(ToJson([blocks |-> BlocksJson(ModelOf(deps, layout).blocks),
                   delta |-> "0.25", names |-> NameOrder,
                   defaults |-> [n \in mi.sN \cup mi.pN |-> Eval(mi.ex[n], <<>>, FALSE)],
@@ -220,7 +220,7 @@ C13_MissingValues == IsSplit => \A c \in {"A", "B"} : \A ii \in 1..Len(Inputs) :
        den == FullDen(Inputs[ii])
    IN (req0 # <<>> /\ LoadOutcome(me) = "ok") =>
       SameVals(ByNames(req0, Exec(EmitMissingValues(me, sl, FALSE, req), sl, SubInput(me, Inputs[ii]))), [n \in SeqSet(req0) |-> den[n]])
-EmitSplit == (IsSplit /\ EmitMod > 0 /\ Hash % EmitMod = 0) =>
+EmitSplit == (IsSplit /\ EmitMod > 0 /\ Hash2 % EmitMod = 0) =>
    PrintT(ToJson([blocks |-> BlocksJson(ModelOf(deps, layout).blocks), split |-> TRUE,
                   halves |-> [c \in {"A", "B"} |-> [own |-> [missing |-> SubInfo(c, TRUE).missing, states |-> SubInfo(c, TRUE).sN,
                                                                assigns |-> SubInfo(c, TRUE).aN],
